@@ -44,8 +44,10 @@ fn run_round(actors: &[Actor], rep: &mut Report) -> Outcome {
             let mut joins = Vec::new();
             for a in actors {
                 let a = a.clone();
+                // every registered name of the shell tool: odd actors call it by its alias
+                let sh = if a.id % 2 == 1 { "shell" } else { "bash" };
                 let input = match a.kind {
-                    "session-bash" => json!({"tool": "bash", "args": {"command": stamp_cmd(a.id, "0.08"), "cwd": "."}}).to_string(),
+                    "session-bash" => json!({"tool": sh, "args": {"command": stamp_cmd(a.id, "0.08"), "cwd": "."}}).to_string(),
                     "session-timeout" => json!({"tool": "bash", "args": {"command": stamp_cmd(a.id, "0.7"), "cwd": "."}, "timeout_ms": 120}).to_string(),
                     // the same, with a CHILD of the tool's shell doing the writing (a subshell the
                     // shell waits for): killing the shell alone would leave it running
@@ -60,7 +62,7 @@ fn run_round(actors: &[Actor], rep: &mut Report) -> Outcome {
                 };
                 if a.kind == "agent-bash" {
                     // a provider-driven run: the agent loop executes a bash function call
-                    let call = json!({"type": "response.output_item.done", "output_index": 0, "item": {"type": "function_call", "id": format!("fc_{}", a.id), "call_id": format!("call_{}", a.id), "name": "bash", "arguments": json!({"command": stamp_cmd(a.id, "0.08"), "cwd": "."}).to_string()}});
+                    let call = json!({"type": "response.output_item.done", "output_index": 0, "item": {"type": "function_call", "id": format!("fc_{}", a.id), "call_id": format!("call_{}", a.id), "name": sh, "arguments": json!({"command": stamp_cmd(a.id, "0.08"), "cwd": "."}).to_string()}});
                     let first = format!("{}{}data: [DONE]\n\n", crate::provider::sse(&json!({"type": "response.created", "response": {"id": format!("resp_{}", a.id)}})), crate::provider::sse(&call));
                     let provider = crate::provider::ScriptedProvider::start(vec![crate::provider::Resp::Sse { body: first.into_bytes(), chunk: 0, cut_at: None }]);
                     let (_, v) = call_json(&app.router, "POST", &format!("/threads/{thread_id}/messages"), Some(json!({"content": format!("agent run {}", a.id), "openresponses": {"endpoint": provider.endpoint, "model": "m"}}))).await;
